@@ -113,6 +113,7 @@ class Harness:
         if 'predicted' in out:
             m = c.get_model()
             out['predicted']['docs'] = [concrete_doc(s, m) for s in sent_ops]
+            out['predicted']['setup_versions'] = nchain0
         return out
 
 
@@ -172,7 +173,8 @@ def replay_judge(scn, out, v):
     probs = []
     if 'panic' in out:
         return True, [{'panic': out['panic']}]
-    for ver in out['server']['versions'][1:]:
+    # versions of the set-up sync (a large symbolic value may have split it into two) are judged as well: no [1:] cut
+    for ver in out['server']['versions']:
         doc = ver['doc']
         if not isinstance(doc, dict) or set(doc.keys()) != {'operations'}:
             probs.append({'version_keys': sorted(doc.keys())})
@@ -190,7 +192,7 @@ def replay_judge(scn, out, v):
 
 def validate_samples(sample, out):
     real = []
-    for ver in out['server']['versions'][1:]:
+    for ver in out['server']['versions'][sample['predicted'].get('setup_versions', 1):]:
         real.extend(_norm_real(ver['doc']).get('operations', []))
     pred = sample['predicted'].get('docs')
     if pred is not None and real != pred:
